@@ -106,6 +106,9 @@ let c06 (h : shist) : string list =
       let started = ref false and factor_applied = ref (h.gen = 1 && false) in
       let provisioned = ref 0 in
       let cancelled = ref false in
+      (* expiry timers of partitions that a shrink has dropped keep running: their released events say nothing
+         about a partition of the same index that was created and acquired again later *)
+      let orphan = Hashtbl.create 8 in
       List.iter (fun ln ->
           if ln.inst = k then
             match ln.w with
@@ -121,11 +124,16 @@ let c06 (h : shist) : string list =
                   hits := (Printf.sprintf "c06:partition-count inst=%d CreatePartitions(%s) for shared=%d factor=%d (expected %d)" k n !shared f expect) :: !hits;
                 provisioned := ios n;
                 (* a shrink drops the partitions above the new count *)
-                Hashtbl.iter (fun p _ -> if p >= ios n then Hashtbl.remove counted p) (Hashtbl.copy counted)
+                Hashtbl.iter (fun p cnt -> if p >= ios n then begin
+                                    Hashtbl.replace orphan p (cnt + (try Hashtbl.find orphan p with Not_found -> 0));
+                                    Hashtbl.remove counted p end) (Hashtbl.copy counted)
             | ["provret"; "4"] -> if ceil_div !shared f <= 500 then hits := (Printf.sprintf "c06:out-of-range inst=%d refused although %d partitions suffice" k (ceil_div !shared f)) :: !hits
             | ["ev"; "allocated"; p] -> Hashtbl.replace counted (ios p) (1 + try Hashtbl.find counted (ios p) with Not_found -> 0)
             | ["ev"; "released"; p] ->
                 (* a timer that fires in the instant its partition is re-acquired logs its release after the new allocation *)
+                if (try Hashtbl.find orphan (ios p) with Not_found -> 0) > 0 then
+                  Hashtbl.replace orphan (ios p) (Hashtbl.find orphan (ios p) - 1)
+                else
                 (match Hashtbl.find_opt counted (ios p) with
                  | Some c when c > 1 -> Hashtbl.replace counted (ios p) (c - 1)
                  | _ -> Hashtbl.remove counted (ios p))
